@@ -103,10 +103,12 @@ func runNativeReplays(cfg Config, hf *harnessFiles, pkg string, jobs []*replayJo
 	var names []string
 	repl := map[string]string{}
 	for virt, real := range hf.nativeRepl {
+		// harness files of the other package go into the overlay too (rewritten repository files of pkg/yqlib may
+		// call harness stubs while pkg/yqlib is built as a dependency of cmd); only this package's harnesses are registered
+		repl[virt] = real
 		if !strings.HasPrefix(virt, filepath.Join(cfg.Repo, pkgDir)+"/") {
 			continue
 		}
-		repl[virt] = real
 		data, _ := os.ReadFile(real)
 		for _, m := range harnessFuncRe.FindAllStringSubmatch(string(data), -1) {
 			names = append(names, m[1])
